@@ -236,7 +236,13 @@ where
                 debug!(
                     channel_filter_key = %key,
                     "All channels dropped");
-                self_.key_counts.remove(&key);
+                // A channel with the same key may have been opened since this notification was
+                // sent; only forget the key if none of its channels are still alive.
+                if let Entry::Occupied(entry) = self_.key_counts.entry(key) {
+                    if entry.get().strong_count() == 0 {
+                        entry.remove();
+                    }
+                }
                 self_.key_counts.compact(0.1);
                 Poll::Ready(())
             }
